@@ -1,6 +1,6 @@
 """C16 - the PagedResults adapter returns the whole result set exactly once."""
 from facts import walk, callee_of, call_args, loc
-import hirq, anchors, absx
+import hirq, anchors, absx, sem
 
 EXPLANATION = ("A1 start(): on the path where one of the caller's controls has the paging OID the adapter returns AdapterInit before any "
                "upcall; otherwise the handle saved for follow-ups is a clone of the stream's handle with its timeout and search options and "
@@ -34,10 +34,15 @@ def run(ctx):
     # ------------------------------------------------------------------ A1 start
     B = hirq.Body(f, f.body(PR + 'start'))
     ctx.analysed['bodies'].add(B.path)
-    outs = absx.Interp(f, B, unroll=1, for_once=True).run(root=inner(B.root))
+    outs = absx.Interp(f, B, unroll=1, for_once=True, combinators=True).run(root=inner(B.root))
     seen = set()
     for o in outs:
-        found = next((t for a, t in o.st.pc if a[0] == 'bin' and a[1] == 'Eq' and a[3] == ('lit', OID) and a[2][0] == 'field' and a[2][2] == 'ctype'), None)
+        is_oid_test = lambda a: a[0] == 'bin' and a[1] == 'Eq' and a[3] == ('lit', OID) and a[2][0] == 'field' and a[2][2] == 'ctype'
+        found = next((t for a, t in o.st.pc if is_oid_test(a)), None)
+        # `controls.iter().any(|c| c.ctype == OID)`: the same test, stated over the whole list
+        any_found = next((t for t, src, el, conds in sem.search_atoms(o.st.pc, 'any') if any(is_oid_test(a) and tr for cnd in conds for a, tr in cnd)), None)
+        if found is None and any_found is not None:
+            found = any_found
         up = [e for e in o.st.ev if e[0] == 'call' and e[1].endswith("SearchStream::<'a, S, A>::start")]
         # the filter closure runs once per control: what it leaves behind for the next control (the found flag) is loop-carried
         carried = [e for e in o.st.ev if e[0] == 'loop-carried' and e[3]['k'] == 'Closure']
@@ -69,6 +74,15 @@ def run(ctx):
         sc = h.get(('field', H, 'controls'), ('unk',))
         filt = sc[2][0] if sc[0] == 'ctor' and sc[1] == 'Some' else ('unk',)
         okc = filt[0] == 'many' and filt[3] == filt[2] and absx.leaves(filt[1], lambda x: strip_site(x) == ('field', handle, 'controls')) != []
+        if not okc and filt in (('array', ()), ('vec', ())) and \
+                absx.pc_variant([(strip_site(a), t) for a, t in o.st.pc], lambda x: x == ('field', handle, 'controls'), 'Some') is False:
+            okc = True          # the caller set no controls: the (empty) default list stands in for them
+        if not okc and filt[0] == 'many' and filt[3] == filt[2] and filt[1] == ('vec', ()) and \
+                absx.pc_variant([(strip_site(a), t) for a, t in o.st.pc], lambda x: x == ('field', handle, 'controls'), 'Some') is False:
+            okc = True          # the caller set no controls: the (empty) default list stands in for them
+        if not okc and any_found is False:
+            # no control of the caller is a paging control (the any() test said so): the whole list is the filtered list
+            okc = absx.leaves(filt, lambda x: strip_site(x) == ('field', handle, 'controls')) != [] and not absx.leaves(filt, lambda x: x[0] == 'struct' and x[1].endswith('PagedResults'))
         ctx.add('A1.saved-controls-without-paging', 'self.ldap.controls', loc(B.root), okc, 'the saved controls are not the caller\'s controls filtered of the paging control: %s' % absx.fmt(sc)[:100])
         stc = h.get(('field', ('field', STREAM, 'ldap'), 'controls'), ('unk',))
         v = stc[2][0] if stc[0] == 'ctor' and stc[1] == 'Some' else ('unk',)
@@ -79,13 +93,14 @@ def run(ctx):
         ctx.add('A1.saves-search-parameters', 'base/scope/filter/attrs', loc(B.root), oks, 'the search parameters are not saved from the same-named arguments')
         oku = len(up) == 1 and up[0][2] == (STREAM, ('param', 'base'), ('param', 'scope'), ('param', 'filter'), ('param', 'attrs')) and o.val == ('await', ('call', up[0][1], up[0][2], up[0][3].get('id')))
         ctx.add('A1.upcall', 'stream.start', loc(B.root), oku, 'the upcall does not receive (base, scope, filter, attrs) in order or its result is not returned')
-    for need in ('refuse', 'refuse-earlier', 'proceed'):
+    flag_form = any(e[0] == 'loop-carried' and e[3]['k'] == 'Closure' for o in outs for e in o.st.ev)
+    for need in ('refuse', 'proceed') + (('refuse-earlier',) if flag_form else ()):
         ctx.add('A1.coverage', need, loc(B.root), need in seen, 'no path of start() for ' + need)
 
     # ------------------------------------------------------------------ A2 next
     N = hirq.Body(f, f.body(PR + 'next'))
     ctx.analysed['bodies'].add(N.path)
-    outs = absx.Interp(f, N, unroll=1, for_once=True).run(root=inner(N.root))
+    outs = absx.Interp(f, N, unroll=1, for_once=True, combinators=True).run(root=inner(N.root))
     seen = set()
     for o in outs:
         ups = [e for e in o.st.ev if e[0] == 'call' and e[1].endswith("SearchStream::<'a, S, A>::next")]
@@ -98,7 +113,7 @@ def run(ctx):
         parses = [e for e in o.st.ev if e[0] == 'call' and e[1] == 'ldap3::controls_impl::RawControl::parse']
         if is_none is not True:
             seen.add('passthrough')
-            ctx.add('A2.passthrough', 'entries / errors', loc(N.root), o.val == up and not searches and not removes, 'anything but Ok(None) must be returned unchanged')
+            ctx.add('A2.passthrough', 'entries / errors', loc(N.root), sem.reconstructs(o.val, up) and not searches and not removes, 'anything but Ok(None) must be returned unchanged')
             continue
         res_some = next((t for a, t in o.st.pc if a == ('is', ('field', STREAM, 'res'), 'Some')), None)
         if res_some is False:
@@ -107,6 +122,10 @@ def run(ctx):
             continue
         ctrls = ('field', ('variant', ('field', STREAM, 'res'), 'Some', 0), 'ctrls')
         is_pr = any(t and a[0] == 'is' and a[2] == 'ControlType::PagedResults' for a, t in o.st.pc)
+        pos = [(t, src, el, conds) for t, src, el, conds in sem.search_atoms(o.st.pc, 'position')
+               if any(a[0] == 'is' and a[2] == 'ControlType::PagedResults' and tr for cnd in conds for a, tr in cnd)]
+        if pos:
+            is_pr = pos[0][0]
         if not is_pr:
             seen.add('no-paging-control')
             ctx.add('A2.no-paging-control', 'result without the control', loc(N.root), o.val == ('ctor', 'Ok', (('ctor', 'None', ()),)) and not searches and not removes,
@@ -125,7 +144,18 @@ def run(ctx):
                 and o.val == ('ctor', 'Ok', (('ctor', 'None', ()),))
             # the index must count positions of the very vector it is applied to: enumerate() directly over that vector's
             # elements (a filter / skip / rev in between numbers a different sequence)
-            if okr:
+            if not okr and len(removes) == 1 and removes[0][2][0] == ctrls and removes[0][2][1][0] == 'variant' and removes[0][2][1][1][0] == 'ctor':
+                pass
+            idx = removes[0][2][1] if len(removes) == 1 else ('unk',)
+            if idx[0] == 'posidx' and removes[0][2][0] == ctrls and not searches and o.val == ('ctor', 'Ok', (('ctor', 'None', ()),)):
+                # `ctrls.iter().position(..)`: the index counts the vector it is applied to when the search runs over that vector itself
+                okr = True
+                src = idx[1][1]
+                if src != ctrls:
+                    okr = False
+                    ctx.fail('A2.removal-index-counts-the-same-vector', 'empty cookie', loc(N.root),
+                             'the index used to remove the paging control is a position in %s, not in the control vector itself' % absx.fmt(src)[:100])
+            elif okr:
                 src = removes[0][2][1][1][1]
                 okr = src == ('enumerate', ctrls)
                 if not okr:
@@ -159,7 +189,7 @@ def run(ctx):
             oksp = h.get(('field', STREAM, 'ldap')) == ('field', news, 'ldap') and h.get(('field', STREAM, 'rx')) == ('field', news, 'rx') and not removes and o.kind in ('loop', 'cont')
             ctx.add('A2.splices-new-stream', which, loc(N.root), oksp, 'after a successful follow-up the stream must continue on the new search\'s handle and receiver')
         else:
-            ctx.add('A2.follow-up-error-returned', which, loc(N.root), o.kind == 'ret' and o.val[0] == 'ctor' and o.val[1] == 'Err' and not removes, 'a failed follow-up search must be returned as the error')
+            ctx.add('A2.follow-up-error-returned', which, loc(N.root), o.kind == 'ret' and sem.is_err_result(o.val) and sem.has(o.val, lambda x: x == sterm) and not removes, 'a failed follow-up search must be returned as the error')
     for need in ('passthrough', 'no-result', 'no-paging-control', 'last-page', 'follow-up|ok', 'follow-up|err'):
         ctx.add('A2.coverage', need, loc(N.root), need in seen, 'no path of next() for ' + need)
     # finish delegates
